@@ -32,7 +32,7 @@ Definition src2_correctly_signed_response (parse_resp : pyval -> pyval) (check_s
    | BErr => PErr
    end))).
 
-(* saml2/response.py:AuthnResponse._assertion, lines 794-854 *)
+(* saml2/response.py:AuthnResponse._assertion, lines 801-861 *)
 Definition src2_assertion (check_sig3 : pyval -> pyval -> pyval -> pyval) (class_name_ext : pyval -> pyval) (issuer_ext : pyval -> pyval) (authn_statement_ok_ext : pyval -> pyval) (condition_ok_ext : pyval -> pyval) (get_subject_ext : pyval -> pyval) (v_self : pyval) (v_assertion : pyval) (v_verified : pyval) : pyval :=
   let v_exc := PErr in
   let v__resp_issuer := PErr in
